@@ -8,6 +8,7 @@ import (
 	"context"
 	"strings"
 
+	"github.com/gopcua/opcua/errors"
 	"github.com/gopcua/opcua/id"
 	"github.com/gopcua/opcua/ua"
 )
@@ -39,13 +40,23 @@ func (n *Node) NodeClass(ctx context.Context) (ua.NodeClass, error) {
 	return ua.NodeClass(v.Int()), nil
 }
 
+// attributeValue returns the value of v as a T. It returns an error
+// if the server sent a value of another type.
+func attributeValue[T any](v *ua.Variant) (T, error) {
+	x, ok := v.Value().(T)
+	if !ok {
+		return x, errors.Errorf("opcua: unexpected attribute value type %T, want %T", v.Value(), x)
+	}
+	return x, nil
+}
+
 // BrowseName returns the browse name of the node.
 func (n *Node) BrowseName(ctx context.Context) (*ua.QualifiedName, error) {
 	v, err := n.Attribute(ctx, ua.AttributeIDBrowseName)
 	if err != nil {
 		return nil, err
 	}
-	return v.Value().(*ua.QualifiedName), nil
+	return attributeValue[*ua.QualifiedName](v)
 }
 
 // Description returns the description of the node.
@@ -54,7 +65,7 @@ func (n *Node) Description(ctx context.Context) (*ua.LocalizedText, error) {
 	if err != nil {
 		return nil, err
 	}
-	return v.Value().(*ua.LocalizedText), nil
+	return attributeValue[*ua.LocalizedText](v)
 }
 
 // DisplayName returns the display name of the node.
@@ -63,7 +74,7 @@ func (n *Node) DisplayName(ctx context.Context) (*ua.LocalizedText, error) {
 	if err != nil {
 		return nil, err
 	}
-	return v.Value().(*ua.LocalizedText), nil
+	return attributeValue[*ua.LocalizedText](v)
 }
 
 // AccessLevel returns the access level of the node.
@@ -74,7 +85,8 @@ func (n *Node) AccessLevel(ctx context.Context) (ua.AccessLevelType, error) {
 	if err != nil {
 		return 0, err
 	}
-	return ua.AccessLevelType(v.Value().(uint8)), nil
+	x, err := attributeValue[uint8](v)
+	return ua.AccessLevelType(x), err
 }
 
 // HasAccessLevel returns true if all bits from mask are
@@ -93,7 +105,8 @@ func (n *Node) UserAccessLevel(ctx context.Context) (ua.AccessLevelType, error) 
 	if err != nil {
 		return 0, err
 	}
-	return ua.AccessLevelType(v.Value().(uint8)), nil
+	x, err := attributeValue[uint8](v)
+	return ua.AccessLevelType(x), err
 }
 
 // HasUserAccessLevel returns true if all bits from mask are
